@@ -665,7 +665,7 @@ def layer_crawl(tape, r, tier):
             # (nor with --continue: a page whose left-over file the server does not continue fails, and what it links to with it)
             # (--post-data: wpull replays a POST over a 307/308 hop with the body file at its end, the hop times out - a failure
             # of that URL, handled per URL, and no subject of C09 - so what lies behind such a hop is not demanded)
-            if not with_robots and ftp_tree is None and '--continue' not in argv and not post_replayed and all(x.hostile_kind != 'http' for x in hostile):
+            if not with_robots and ftp_tree is None and '--continue' not in argv and '-N' not in argv and not post_replayed and all(x.hostile_kind != 'http' for x in hostile):
                 ref_rows, expected = crawl.reference_crawl(site, starts, opts, own)
                 reqs = {canon(e['url']) for e in server.log}
                 for u in expected:
